@@ -1,3 +1,4 @@
+import json
 """Per-property check definitions.  Each returns a dict:
    level, coverage (evidence schema keys), assumptions, violations: [{clause, where, payload}], notes."""
 from harness import runner
@@ -342,7 +343,26 @@ def check_C20(ctx):
                             'TLC, CommunityModules Json']}
 
 
-CHECKS = {'C20': check_C20, 'C17': check_C17, 'C08': check_C08, 'C13': check_C13, 'C19': check_C19, 'C05': check_C05, 'C15': check_C15, 'C11': check_C11, 'C09': check_C09, 'C10': check_C10, 'C01': check_C01, 'C02': check_C02, 'C03': check_C03, 'C04': check_C04, 'C06': check_C06,
+def check_C18(ctx):
+    from harness import layer_ident
+    res = runner.memo('ident', ctx, lambda: layer_ident.run(ctx))
+    viol = [{'clause': f['fails'][0][0], 'all_clauses': sorted({c[0] for c in f['fails']}), 'where': 'event %d: %s' % (f['fails'][0][1], json.dumps(f['events'][:1])[:200]),
+             'payload': {'layer': 'ident', 'g': f['g']}} for f in res['fails']]
+    cov = {'states': res['states'], 'transitions': res['transitions'], 'traces_validated_against_impl': res['n_traces'],
+           'samples': res['samples'], 'evaluations': res['steps'] + 3*res['n_graphs'], 'distinct_nontrivial': res['n_graphs'],
+           'rule': 'Identity.tla: two sides (a graph and its copy), seven independent structural edits (add node, add edge, remove node, '
+                   'remove edge, add incompatibility, add start node, add choice constraint) applied to either side; TLC emits every ordered '
+                   'edit sequence up to depth 2 (quick) / 3 (thorough, sampled) with the equality it implies (sets of edits equal); each is '
+                   'replayed on real objects and ==, hash compared after every step. Per description also: pickle round trip of graph and '
+                   'processor (variables and whole decode mapping), a second interpreter with another PYTHONHASHSEED building the same '
+                   'description (fingerprint, variables, decode mapping, exchanged pickle), GML and DOT exports parsed back',
+           'descriptions': res['n_graphs'], 'edit_sequences': res['edit_sequences'], 'edit_steps_checked': res['steps'], 'exhaustive': False}
+    return {'level': 'model_checking', 'coverage': cov, 'violations': viol,
+            'assumptions': ['the seven edits are independent and idempotent on the generated graphs (the editor picks disjoint targets)',
+                            'decode mappings are compared for declared spaces of at most 64 vectors', 'TLC']}
+
+
+CHECKS = {'C18': check_C18, 'C20': check_C20, 'C17': check_C17, 'C08': check_C08, 'C13': check_C13, 'C19': check_C19, 'C05': check_C05, 'C15': check_C15, 'C11': check_C11, 'C09': check_C09, 'C10': check_C10, 'C01': check_C01, 'C02': check_C02, 'C03': check_C03, 'C04': check_C04, 'C06': check_C06,
           'C07': check_C07, 'C14': check_C14, 'C16': check_C16}
 
 
@@ -352,6 +372,19 @@ def replay_payload(payload):
     if layer == 'graph':
         from harness import layer_graph
         return layer_graph.replay(payload['g'])
+    if layer == 'ident':
+        from harness import layer_ident, drive_ident
+        import tempfile, shutil, os
+        from harness.runner import CACHE
+        wd = tempfile.mkdtemp(prefix='identr-', dir=CACHE if os.path.isdir(CACHE) else None)
+        try:
+            seqs, _, _ = drive_ident.generate_sequences(2, os.path.join(wd, 'gen'))
+            ts = [drive_ident.drive_edits(payload['g'], seqs, tid=0), drive_ident.drive_process(payload['g'], wd, tid=1)]
+        finally:
+            shutil.rmtree(wd, ignore_errors=True)
+        from harness import tlc as _t
+        mon = _t.run_monitor('Mon_Ident', [t for t in ts if 'skip' not in t], cfg='Mon_Ident.cfg', shards=1)
+        return [c for v in mon['verdicts'].values() for c in v[2]]
     if layer == 'sup':
         from harness import layer_sup
         return layer_sup.replay(payload)
